@@ -184,10 +184,14 @@ Proof.
   - injection Hr as <- <- <-. apply Hnil; reflexivity.
   - (* PutSecret *)
     set (t := prepare_secret s) in *.
+    destruct (prepare_secret_same s) as [Pk [Piv Pc]]. fold t in Pk, Piv, Pc.
     destruct (send_frame t (d ++ [x00]) EndFlagComplete) as [t1 [f|e0]] eqn:Es; injection Hr as <- <- <-.
-    + destruct (Hone t _ _ _ _ eq_refl eq_refl eq_refl Es) as [Hn [H1 [H2 H3]]].
+    + destruct (restore_secret_same t1) as [Rk [Riv Rc]]. unfold same_chan. rewrite Rk, Riv, Rc.
+      destruct (Hone t _ _ _ _ Pk Piv Pc Es) as [Hn [H1 [H2 H3]]].
       split; [exact Hn|split; [split; assumption|exact H3]].
-    + rewrite (Herr _ _ _ _ _ Es). apply Hnil; reflexivity.
+    + rewrite (Herr _ _ _ _ _ Es).
+      destruct (restore_secret_same t) as [Rk [Riv Rc]].
+      apply Hnil; congruence.
   - destruct b.
     + rewrite Hk in Hr. injection Hr as <- <- <-. apply Hnil; reflexivity.
     + injection Hr as <- <- <-. apply Hnil; reflexivity.
@@ -285,9 +289,11 @@ Proof.
       apply (Hone _ _ _ _ _ Hkt eq_refl Es).
   - injection E1 as <- <- <-; exact Hnil.
   - set (t := prepare_secret s) in *.
-    assert (Hkt : key t = None) by exact Hk.
+    destruct (prepare_secret_same s) as [Pk [_ Pc]]. fold t in Pk, Pc.
+    assert (Hkt : key t = None) by congruence.
     destruct (send_frame t (d ++ [x00]) EndFlagComplete) as [t1 [f|e0]] eqn:Es; injection E1 as <- <- <-;
-      apply (Hone _ _ _ _ _ Hkt eq_refl Es).
+      destruct (restore_secret_same t1) as [Rk [_ Rc]]; rewrite Rk, Rc;
+      apply (Hone _ _ _ _ _ Hkt Pc Es).
   - destruct b; [rewrite Hk in E1|]; injection E1 as <- <- <-; exact Hnil.
 Qed.
 
